@@ -7,3 +7,7 @@ package upstream
 
 // VSessionShed is Server.shedSessions (the shed path of Rebalance).
 func VSessionShed(s *Server, n int) { s.shedSessions(n) }
+
+// VSessionCancelled reports whether Server.Shutdown has cancelled the context shared by the
+// upstream handlers (Server.ctx).
+func VSessionCancelled(s *Server) bool { return s.ctx.Err() != nil }
